@@ -12,7 +12,7 @@ use libp2p_kad::{
     verif::{clock, EntryState, Inserted, KeyBytes, Table},
     KBucketDistance, KBucketKey, NodeStatus, U256,
 };
-use rand::Rng;
+use rand::{seq::SliceRandom, Rng};
 use vcommon::{json, Out, Value};
 
 const UNIT: Duration = Duration::from_secs(3600);
@@ -390,6 +390,58 @@ fn closest_all(out: &mut Out, bits: usize, maxn: usize, locals: &[u64], pos: Vec
     }
 }
 
+/// C38, tables whose buckets hold more entries than the default bucket size (K_VALUE = 20): 6-bit keys, bucket size 64,
+/// seeded key sets with 21..=32 keys in the farthest bucket (and up to 16 / 8 in the next ones) x a handful of targets
+fn closest_big(out: &mut Out, rng: &mut impl Rng, nsets: usize, pos: Vec<usize>, mseed: u64) {
+    let bits = 6usize;
+    let nk = 1u64 << bits;
+    let e = Emb::new(pos.clone(), mseed);
+    for _ in 0..nsets {
+        let local = rng.gen_range(0..nk);
+        let mut keys: Vec<u64> = vec![];
+        let far: Vec<u64> = (0..nk).filter(|k| (k ^ local) >= 32).collect();
+        let n_far = rng.gen_range(21..=32usize);
+        let mut f = far.clone();
+        f.shuffle(rng);
+        keys.extend(f.into_iter().take(n_far));
+        for k in 0..nk {
+            if k != local && (k ^ local) < 32 && rng.gen_bool(0.4) {
+                keys.push(k);
+            }
+        }
+        keys.sort();
+        let mut targets: Vec<u64> = vec![local, keys[0], keys[keys.len() - 1]];
+        for _ in 0..4 {
+            targets.push(rng.gen_range(0..nk));
+        }
+        let r = vcommon::guard(|| {
+            let mut t = Table::new(e.key(local), NonZeroUsize::new(nk as usize).unwrap(), UNIT);
+            for k in &keys {
+                match t.insert(&e.key(*k), NodeStatus::Connected) {
+                    Ok(Inserted::Inserted) => {}
+                    x => panic!("driver: insert into roomy table failed: {x:?}"),
+                }
+            }
+            targets
+                .iter()
+                .map(|&target| {
+                    let o: Vec<i64> = t.closest_keys(&e.key(target)).iter().map(|x| e.abs(x)).collect();
+                    let o2: Vec<i64> = t.closest(&e.key(target)).iter().map(|x| e.abs(&x.0)).collect();
+                    (target, o, o2)
+                })
+                .collect::<Vec<_>>()
+        });
+        match r {
+            Ok(outs) => {
+                for (target, o, o2) in outs {
+                    out.ev(json!({"B": bits, "local": local, "keys": keys, "t": target, "out": o, "out2": o2, "pos": pos, "mseed": mseed}));
+                }
+            }
+            Err(m) => out.ev(json!({"B": bits, "local": local, "keys": keys, "t": -1, "out": [], "out2": [], "panic": m, "pos": pos, "mseed": mseed})),
+        }
+    }
+}
+
 fn closest_replay(out: &mut Out, rec: &Value) {
     let bits = vcommon::n(rec, "B") as usize;
     let local = vcommon::n(rec, "local") as u64;
@@ -614,6 +666,9 @@ pub fn main(a: &vcommon::Args) {
             closest_all(&mut out, bits.min(3), maxn, &[rng.gen_range(0..(1u64 << bits.min(3)))], (256 - bits.min(3)..256).collect(), seed + 2);
             closest_all(&mut out, bits.min(3), maxn, &[rng.gen_range(0..(1u64 << bits.min(3)))], rand_pos(&mut rng, bits.min(3)), seed + 1);
             closest_all(&mut out, 2, 3, &[0, 1, 2, 3], vec![0, 1], 0);
+            let nbig = a.kv_num("big", 12) as usize;
+            closest_big(&mut out, &mut rng, nbig, (0..6).collect(), 0);
+            closest_big(&mut out, &mut rng, nbig, (250..256).collect(), seed + 3);
             println!("records={}", out.events);
             out.finish();
         }
